@@ -161,6 +161,41 @@ def run(ctx):
             n += 1
             ctx.check(len(er) == 1 and len(inc) == 1 and probes == [False, False], 'R2', 'match_recv: id erased and counter incremented together, neither side a probe', where(mr), 'erase x%d, increment x%d, probe tests %s' % (len(er), len(inc), probes), key='R2|match_recv|bookkeeping')
     ctx.require(n >= 1, 'R2', 'match_recv bookkeeping path not found')
+    # the counters are keyed (rank of the source, rank of the destination, tag) of the *message*: the lookup and the increment of match_recv use the same key, and so do the
+    # two sender-side calls of start(); a message whose id is not the expected one is refused
+    def key_of(e):
+        out = []
+        for a in e.args[:3]:
+            fs = [x[2].rsplit('::', 1)[-1] for x in ex.subterms(a) if x[0] == 'field' and x[2].rsplit('::', 1)[-1] in ('src_', 'dst_', 'tag_')]
+            out.append(fs[-1] if fs else ex.pretty(a))
+        return tuple(out)
+    keys = {}
+    for fnq in ('match_recv', 'start'):
+        g = P.fn(RQ + '::' + fnq)
+        gv = A.view(g)
+        for eid in range(len(g['elems'])):
+            if g['elems'][eid].get('m') in ('XBT_DEBUG', 'XBT_VERB'):
+                continue
+            for e in gv.events_of(eid):
+                if e.kind == 'call' and e.q.startswith('simgrid::smpi::Comm::') and e.q.rsplit('::', 1)[-1] in ('get_received_messages_count', 'increment_received_messages_count', 'get_sent_messages_count', 'increment_sent_messages_count') and len(e.args) >= 3:
+                    keys.setdefault(e.q.rsplit('::', 1)[-1], set()).add(key_of(e))
+    allk = set(k for v_ in keys.values() for k in v_)
+    ctx.check(len(keys) == 4 and allk == {('src_', 'dst_', 'tag_')}, 'R2', 'the four message counters are keyed (rank of src_, rank of dst_, tag_) at every call', where(mr),
+              '%s' % {k: sorted(v_) for k, v_ in sorted(keys.items())}, key='R2|message counters|same key')
+    refused = None
+    for p in vr.paths():
+        if p.exit in ('noreturn', 'cut', 'throw'):
+            continue
+        evs = vr.path_events(p)
+        found = [e.pol for e in evs if e.kind == 'branch' and e.atom[0] == 'bin' and e.atom[1] == '==' and 'message_id_' in repr(e.atom) and '::end' in repr(e.atom)]
+        if found != [True]:
+            continue        # the expected id is there (or the test was not reached: no match, uninitialised or smp communicator)
+        rets = [e.val for e in evs if e.kind == 'return' and e.val is not None]
+        falses = [e for e in evs if e.kind == 'assign' and e.lhs[0] == 'var' and e.lhs[2] == 'match' and e.rhs == ('bool', False)]
+        good = bool(rets) and (rets[-1] == ('bool', False) or (rets[-1][0] == 'var' and rets[-1][2] == 'match' and bool(falses)))
+        refused = good if refused is None else (refused and good)
+    ctx.check(bool(refused), 'R2', 'match_recv refuses a message whose id is not the one expected next for its (source, destination, tag)', where(mr), '' if refused else
+              'a path on which the expected id is absent from message_id_ still reports a match: a later message overtakes an earlier one', key='R2|match_recv|unexpected id refused')
     vs = A.view(ms)
     for p in vs.paths():
         evs = vs.path_events(p)
